@@ -9,9 +9,12 @@ use crate::sut::{self, Entry, Verdict};
 use crate::util::J;
 
 fn run_xz(data: &[u8]) -> (Verdict, Vec<u8>) {
-    let sink = SharedSink::new();
+    // neither the way the input arrives nor the way the sink accepts output is the subject here:
+    // both vary with a hash of the file (mostly slice + plain sink)
+    let sel = case_hash(&[data]);
+    let sink = SharedSink::varied(sel >> 8, data.len() * 8);
     let obs = sut::new_obs(u64::MAX);
-    let c = sut::decode(Entry::Xz, data, &sut::default_options(), ReaderKind::Slice, &sink, &obs);
+    let c = sut::decode(Entry::Xz, data, &sut::default_options(), ReaderKind::from_selector(sel), &sink, &obs);
     (c.verdict, sink.bytes())
 }
 
